@@ -151,7 +151,7 @@ def replay_harness(ctx, casefile, toks):
 if __name__ == "__main__":
     ctx = Ctx("C03")
     ctx.assumptions = [
-        "theorems: every finite sequential history of the whole operation language (incl. gc and the allow-list transfer inside SetPeer) under the property's own quantifier (disciplined = config_wf, op_shape, callers_run); the concurrent clause ('from many goroutines at once') is covered by the correspondence alone: 8 goroutines on one manager, totals at quiescence == what each goroutine holds, sampled limit checks, everything zero after the drain",
+        "theorems: every finite sequential history of the whole operation language (incl. gc and the allow-list transfer inside SetPeer) under the property's own quantifier (disciplined = config_wf, op_shape, callers_run), for the whole monitor (mon_run with every check); the concurrent clause ('from many goroutines at once') is covered by the correspondence alone: 8 goroutines on one manager, totals at quiescence == what each goroutine holds, sampled limit checks, everything zero after the drain",
         "callers release at most what they reserved directly on that scope, priorities 0..255, outstanding memory in total < 2^63 (callers_run; with a MaxInt64 memory limit the code skips the check and int64 would wrap: DESIGN 9 item 13)",
         "limits are non-negative (config_wf); SetLimit / sticky scopes are outside the quantifier and not modelled; metrics, tracing and the connection *rate* limiter are off",
         "IP addresses and prefixes are integers with shift-compare containment (netip/net.IPNet.Contains, manet.ToIP modelled, exercised by the correspondence with real multiaddrs incl. IPv6 and IPv4-mapped IPv6: the conn limiter keys a mapped address as IPv6 in addConn and rmConn, the allow-list unmaps it)",
